@@ -21,6 +21,11 @@
 #ifndef CFG_LARGE
 #define CFG_LARGE 0
 #endif
+// second character of the alphabet: 'b' by default, a byte >= 0x80 for the "h" instantiations (sign of plain char in
+// comparisons, searches and the packed length byte)
+#ifndef CFG_CH2
+#define CFG_CH2 'b'
+#endif
 
 namespace xtl { namespace detail {
     // size-field storage for a small capacity: the library's own class, selected through an unused flag value
@@ -335,11 +340,12 @@ static void setup_alphabets()
     }
     P.push_back(npos);
     CE.push_back(npos);
-    CH = {CT('a'), CT('b')};
-    std::vector<M> t = {M(), M(1, 'a'), M(1, 'b'), M{CT('a'), CT('a')}, M{CT('a'), CT('b')}, M{CT('b'), CT('a')}, M{CT('b'), CT('b')}};
-    if (CFG_LARGE) t = {M(), M(1, 'a'), M{CT('b'), CT('a')}};
+    CH = {CT('a'), CT(CFG_CH2)};
+    const CT B2 = CT(CFG_CH2);
+    std::vector<M> t = {M(), M(1, 'a'), M(1, B2), M{CT('a'), CT('a')}, M{CT('a'), B2}, M{B2, CT('a')}, M{B2, B2}};
+    if (CFG_LARGE) t = {M(), M(1, 'a'), M{B2, CT('a')}};
     M full, over;
-    for (std::size_t i = 0; i < N + 1; ++i) { if (i < N) full += CT(i % 2 ? 'b' : 'a'); over += CT(i % 2 ? 'b' : 'a'); }
+    for (std::size_t i = 0; i < N + 1; ++i) { if (i < N) full += (i % 2 ? B2 : CT('a')); over += (i % 2 ? B2 : CT('a')); }
     if (N > 2) t.push_back(full);
     t.push_back(over);
     if (CFG_LARGE) { M almost(full); almost.pop_back(); t.push_back(almost); }
@@ -348,7 +354,7 @@ static void setup_alphabets()
     {
         SRCN.emplace_back(M(1, CT(0)));
         SRCN.emplace_back(M{CT('a'), CT(0)});
-        if (!CFG_LARGE) SRCN.emplace_back(M{CT(0), CT('b')});
+        if (!CFG_LARGE) SRCN.emplace_back(M{CT(0), CT(CFG_CH2)});
     }
 }
 
@@ -501,10 +507,10 @@ static void build_ops(Ex& ex)
             if (!CFG_LARGE) add_op(ex, "replace(pos,n,ptr,n2)", "replace(" + pn(i) + ",1,ptr " + x.name + "," + pn(x.len()) + ")", both(GEN(return self(s, s.replace(i, 1, x.r(), x.len()));)));
         }
     }
-    add_op(ex, "ctor(ilist)", "S{a,b}", both(GEN(Tmp<S> t(std::initializer_list<CT>{CT('a'), CT('b')}); s = *t; return "ok";)));
-    add_op(ex, "op=(ilist)", "={b}", both(GEN(return self(s, s = {CT('b')});)));
-    add_op(ex, "assign(ilist)", "assign{a,a,b}", both(GEN(return self(s, s.assign({CT('a'), CT('a'), CT('b')}));)));
-    add_op(ex, "append(ilist)", "append{b,a}", both(GEN(return self(s, s.append({CT('b'), CT('a')}));)));
+    add_op(ex, "ctor(ilist)", "S{a,b}", both(GEN(Tmp<S> t(std::initializer_list<CT>{CT('a'), CT(CFG_CH2)}); s = *t; return "ok";)));
+    add_op(ex, "op=(ilist)", "={b}", both(GEN(return self(s, s = {CT(CFG_CH2)});)));
+    add_op(ex, "assign(ilist)", "assign{a,a,b}", both(GEN(return self(s, s.assign({CT('a'), CT('a'), CT(CFG_CH2)}));)));
+    add_op(ex, "append(ilist)", "append{b,a}", both(GEN(return self(s, s.append({CT(CFG_CH2), CT('a')}));)));
     add_op(ex, "+=(ilist)", "+={a}", both(GEN(return self(s, s += {CT('a')});)));
     if (!STRLEN) add_op(ex, "assign(ilist)", "assign{a,\\0}", both(GEN(return self(s, s.assign({CT('a'), CT(0)}));)));
     // ----------------------------------------------------------------- single characters / counts
@@ -557,7 +563,7 @@ static void build_ops(Ex& ex)
     for (std::size_t i : P)
     {
         if (i == npos) continue;
-        add_op(ex, "insert(it,ilist)", "insert(begin+" + pn(i) + ",{a,b})", both(GEN(if (i > s.size()) return NA; return iter(s, s.insert(s.begin() + std::ptrdiff_t(i), {CT('a'), CT('b')}));)));
+        add_op(ex, "insert(it,ilist)", "insert(begin+" + pn(i) + ",{a,b})", both(GEN(if (i > s.size()) return NA; return iter(s, s.insert(s.begin() + std::ptrdiff_t(i), {CT('a'), CT(CFG_CH2)}));)));
         add_op(ex, "erase(it)", "erase(begin+" + pn(i) + ")", both(GEN(if (i >= s.size()) return NA; return iter(s, s.erase(s.begin() + std::ptrdiff_t(i)));)));
         add_op(ex, "erase(idx)", "erase(" + pn(i) + ")", both(GEN(return self(s, s.erase(i));)));
         for (std::size_t k : CE) add_op(ex, "erase(idx,n)", "erase(" + pn(i) + "," + pn(k) + ")", both(GEN(return self(s, s.erase(i, k));)));
@@ -565,7 +571,7 @@ static void build_ops(Ex& ex)
         {
             if (j == npos || j < i) continue;
             add_op(ex, "erase(it,it)", "erase(begin+" + pn(i) + ",begin+" + pn(j) + ")", both(GEN(if (j > s.size()) return NA; return iter(s, s.erase(s.begin() + std::ptrdiff_t(i), s.begin() + std::ptrdiff_t(j)));)));
-            add_op(ex, "replace(it,it,ilist)", "replace(begin+" + pn(i) + ",begin+" + pn(j) + ",{b,a})", both(GEN(if (j > s.size()) return NA; return self(s, s.replace(s.begin() + std::ptrdiff_t(i), s.begin() + std::ptrdiff_t(j), {CT('b'), CT('a')}));)));
+            add_op(ex, "replace(it,it,ilist)", "replace(begin+" + pn(i) + ",begin+" + pn(j) + ",{b,a})", both(GEN(if (j > s.size()) return NA; return self(s, s.replace(s.begin() + std::ptrdiff_t(i), s.begin() + std::ptrdiff_t(j), {CT(CFG_CH2), CT('a')}));)));
         }
     }
     add_op(ex, "erase()", "erase()", both(GEN(return self(s, s.erase());)));
@@ -759,7 +765,7 @@ int main(int argc, char** argv)
     ex.max_states = max_states;
     ex.deadline_s = deadline;
     build_ops(ex);
-    build_stream_ops<CT>(ex);
+    if (CFG_CH2 == 'b') build_stream_ops<CT>(ex);   // stream inputs are written over {a,b,blank}; keep the high-byte alphabets closed
     build_queries();
     ex.check_state = check_state;
     std::vector<World> inits;
